@@ -7,9 +7,10 @@
 # Results are appended to /verif/work/seedcheck-<ID>.log ; artefacts copied to /verif/seeded/<ID>/
 set -u
 ID="$1"; shift
-SRC="/tmp/seed/$ID/SEED"
-DST="/verif/seeded/$ID"
-LOG="/verif/work/seedcheck-$ID.log"
+SFX="${SEEDSUFFIX:-}"
+SRC="${SEEDSRC:-/tmp/seed}/$ID/SEED"
+DST="/verif/seeded/$ID$SFX"
+LOG="/verif/work/seedcheck-$ID$SFX.log"
 mkdir -p "$DST" /verif/work
 : > "$LOG"
 for f in patch.diff demo.rs notes.md; do
